@@ -9,6 +9,20 @@ the lemmas are in Lemmas/FixFrameLemmas.lean, the model in Model/FixFrame.lean.
 namespace NasdaqModel.Props.C14
 open NasdaqModel Py Fix FixFrame
 
+/-
+`frame ver d se seq time m = .ok (f, m')` is the model of `FixSession.send_msg`: `f` are the bytes given to
+`transport.write`, `m'` the message as mutated by the header stamping (`se` = the comp/sub ids the session took from the
+logon message, `seq` = the sequence number drawn, `time` = SendingTime).  Automatic heartbeats go through the same
+function with the empty Heartbeat message.
+The hypotheses (decidable, defined in Lemmas/FixFrameLemmas.lean and Lemmas/FixLemmas.lean):
+  wfVer ver           — no `=` in the session's version string (true of `FIX.4.4` and `FIXT.1.1`, examples below);
+  for `C14_decodes_to_sent` additionally: the C13 hypotheses on the dictionary and the stamped message (`wfDef`, `wfMsg`),
+  `wfText` of version and type (ASCII, no SOH), `framingEntries d` (header knows 8 string / 9 int / 35 string, trailer
+  knows 10 string), and the user did not set 8, 9, 35 or 10 himself.
+`fixCut` is the find-logic of `FixMessageReader.deserialize` (a copy local to Model/FixFrame.lean), `feed` applies it after
+every arriving segment.
+-/
+
 /-- **Shape.** Every frame written is
     `8=<version>SOH 9=<n>SOH 35=<type>SOH <encoded message> 10=<ccc>SOH` where `n` (plain decimal) is exactly the number of
     bytes between the end of the BodyLength field and the start of the CheckSum field, and `ccc` is three decimal digits
